@@ -5,6 +5,7 @@
 //!                                                       on the implementation and run its oracle
 mod gens;
 mod implside;
+mod iomock;
 mod util;
 
 use std::collections::{BTreeMap, HashSet};
@@ -36,6 +37,8 @@ impl Out {
     }
     /// Adds a case, runs it on the implementation and returns its index.
     pub fn case(&mut self, line: String, nontrivial: bool) -> usize {
+        // canonical spacing: single spaces, no trailing space
+        let line = line.split(' ').filter(|t| !t.is_empty()).collect::<Vec<_>>().join(" ");
         let r = implside::run_case(&line);
         if nontrivial {
             let _ = self.nontrivial.insert(util::fnv_str(util::FNV_INIT, &line));
